@@ -21,7 +21,8 @@ RULE = ("Hypothesis draws an m x n operator with m<n, m=n, m>n (1..12; real/comp
         "factors in every orientation pattern (wide@tall, tall@square, square@wide, tall@tall, ...) and Sums."
         " Further: c * Stiefel / Unitary-declared Q with |c| != 1 (pinv), singular values spread over 1e3 / 5e3 at"
         " Lanczos' default tolerance, columns graded over four decades (pinv), the same Auto object (or the default)"
-        " first used on a 2 x 500001 operator in the large case.")
+        " first used on a 2 x 500001 operator in the large case."
+        " Round 5: aspect ratios 8..10 (2 x 16 .. 4 x 40 and transposed), Kronecker products of two dense factors.")
 ASSUMPTIONS = [
     "full-rank operators with cond <= ~1e2; tolerances 1e-7 |M| (svd) and 1e-6 |x| cond (pinv; 10 tol cond^2 for CG)",
     "bulk payloads from numpy.default_rng(seed) with the seed a Hypothesis draw",
